@@ -117,9 +117,9 @@ static View stepModel(const View& w, int s, int ld) {
 }
 
 // ================================================================ one case
-enum OpKind { OP_READ, OP_SETTO, OP_SCALAR_ASSIGN, OP_SETZERO, OP_ELT_WRITE, OP_ADD, OP_SUB, OP_ADD_NEG, OP_MUL_S, OP_DIV_S, OP_NEGATE_INPLACE,
+enum OpKind { OP_READ, OP_SETTO, OP_SCALAR_ASSIGN, OP_SETZERO, OP_ELT_WRITE, OP_ADD, OP_SUB, OP_ADD_NEG, OP_SUB_NEG, OP_MUL_S, OP_DIV_S, OP_NEGATE_INPLACE,
               OP_NORMS, OP_SUMS, OP_COPY, OP_COPY_NEG, OP_ASSIGN_IN, OP_ASSIGN_OUT, OP_VIEW_ASSIGN, OP_PRODUCT, OP_GLOBAL, OP_ELTWISE, OP_STANDARDIZE, OP_VECTOR, OP_DIAG_PLUS, NOPS };
-static const char* OPNAME[NOPS] = {"read", "setTo(e)", "V=e", "setToZero", "V(i,j)=e", "V+=W", "V-=W", "V+=(-W)", "V*=s", "V/=s", "negateInPlace",
+static const char* OPNAME[NOPS] = {"read", "setTo(e)", "V=e", "setToZero", "V(i,j)=e", "V+=W", "V-=W", "V+=(-W)", "V-=(-W)", "V*=s", "V/=s", "negateInPlace",
                                    "norms", "sums", "copy", "copy-from-negated", "V=W", "W=V", "viewAssign", "product", "global+-*", "elementwise", "standardize/abs", "as-vector", "V+=e"};
 
 struct Ctx {
@@ -247,6 +247,21 @@ template <class E0, class ELT> static void applyOp2(Ctx& cx, Base<E0>& B, Matrix
             { auto R = V + W; checkResult(cx, R, nr, nc, ex, "matrix+matrix", "V+W"); }
             for (size_t t = 0; t < ex.size(); ++t) ex[t] = vv[t] - wv[t];
             { auto R = V - W; checkResult(cx, R, nr, nc, ex, "matrix-matrix", "V-W"); }
+            { auto R = V + W.negate(); checkResult(cx, R, nr, nc, ex, "matrix+(-matrix)", "V+(-W)"); }
+            for (size_t t = 0; t < ex.size(); ++t) ex[t] = vv[t] + wv[t];
+            { auto R = V - W.negate(); checkResult(cx, R, nr, nc, ex, "matrix-(-matrix)", "V-(-W)"); }
+            for (size_t t = 0; t < ex.size(); ++t) ex[t] = wv[t] - vv[t];
+            { auto R = W - V; checkResult(cx, R, nr, nc, ex, "owner-view", "W-V"); }
+        }
+        if (nc == 1) {   // the Vector and RowVector global operators are separate templates
+            VectorView_<ELT>& v = V.updAsVectorView(); Vector_<ELT> wvec(nr); for (int i = 0; i < nr; ++i) wvec[i] = W(i, 0);
+            if constexpr (!T::T::conj) {
+                for (size_t t = 0; t < ex.size(); ++t) ex[t] = vv[t] + wv[t];
+                { auto R = v - wvec.negate(); checkResult(cx, R, nr, 1, ex, "vector-(-vector)", "v-(-w)"); }
+                for (size_t t = 0; t < ex.size(); ++t) ex[t] = vv[t] - wv[t];
+                { auto R = v + wvec.negate(); checkResult(cx, R, nr, 1, ex, "vector+(-vector)", "v+(-w)"); }
+                { auto R = v - wvec; checkResult(cx, R, nr, 1, ex, "vector-vector", "v-w"); }
+            }
         }
         } break;
     case OP_ELTWISE: if constexpr (IsScalarElt<ELT>::value && !(T::T::neg && T::T::cplx)) {   // negator<complex> *= negator<complex> does not compile (library limitation)
@@ -325,10 +340,12 @@ template <class E0, class ELT> static void applyOp(Ctx& cx, Base<E0>& B, MatrixV
     case OP_SCALAR_ASSIGN: { cx.writeOp = true; V = e; LD z[MAXR] = {0}; for (int j = 0; j < nc; ++j) for (int i = 0; i < nr; ++i) viewSet(bm, w, i, j, i == j ? ev : z); break; }
     case OP_SETZERO: { cx.writeOp = true; V.setToZero(); LD z[MAXR] = {0}; for (int j = 0; j < nc; ++j) for (int i = 0; i < nr; ++i) viewSet(bm, w, i, j, z); break; }
     case OP_ELT_WRITE: if (nr && nc) { cx.writeOp = true; V(nr - 1, nc - 1) = e; viewSet(bm, w, nr - 1, nc - 1, ev); V.updElt(0, 0) = e; viewSet(bm, w, 0, 0, ev); } break;
-    case OP_ADD: case OP_SUB: case OP_ADD_NEG: {
+    case OP_ADD: case OP_SUB: case OP_ADD_NEG: case OP_SUB_NEG: {
         cx.writeOp = true;
-        if (op == OP_ADD) V += W; else if (op == OP_SUB) V -= W; else V += W.negate();
-        for (int j = 0; j < nc; ++j) for (int i = 0; i < nr; ++i) { LD a[MAXR]; viewGet(bm, w, i, j, a); for (int k = 0; k < NR; ++k) a[k] = op == OP_ADD ? a[k] + wv[((size_t)j * nr + i) * NR + k] : a[k] - wv[((size_t)j * nr + i) * NR + k]; viewSet(bm, w, i, j, a); }
+        // the negated operand has element type TNeg and routes through the addIn(TNeg)/subIn(TNeg) overloads of MatrixHelper
+        if (op == OP_ADD) V += W; else if (op == OP_SUB) V -= W; else if (op == OP_ADD_NEG) V += W.negate(); else V -= W.negate();
+        const bool plus = op == OP_ADD || op == OP_SUB_NEG;
+        for (int j = 0; j < nc; ++j) for (int i = 0; i < nr; ++i) { LD a[MAXR]; viewGet(bm, w, i, j, a); for (int k = 0; k < NR; ++k) a[k] = plus ? a[k] + wv[((size_t)j * nr + i) * NR + k] : a[k] - wv[((size_t)j * nr + i) * NR + k]; viewSet(bm, w, i, j, a); }
         break; }
     case OP_MUL_S: case OP_DIV_S: {
         cx.writeOp = true;
